@@ -331,6 +331,10 @@ def run(chk):
         chk.corr_fail("Corr.CountCorr.multi_case_ok (several Count tags in one template)", metas2[m])
 
     cli_stream(chk, rng, 120 if chk.tier == "quick" else 3000, stats)
+    # whole-program model against the real command line (templates with %Count among them), no plan injection
+    import whole
+    import random as _random
+    whole.whole_stream(chk, _random.Random(chk.seed * 7919 + 16), 120 if chk.tier == "quick" else 5000, stats)
     chk.coverage["rule"] = (
         "random (start, step, width, common) incl. invalid ones, spelled positionally/named/flag; random interleavings "
         "of files over 1-3 input roots x 1-6 directories; the real CountTag driven through compiled templates "
